@@ -92,7 +92,8 @@ def run(ctx):
     # JSONLIterator.next
     nx = prog.func('jsonutils.JSONLIterator.next')
     ci = prog.cls('jsonutils.JSONLIterator')
-    w, paths = paths_of(prog, nx, recv=ci)
+    from rules.common import PrivInl as _PI19
+    w, paths = paths_of(prog, nx, recv=ci, model=_PI19(prog))
     n_tests = 0
     for p in paths:
         for t, truth, o in tests_on(w, p):
